@@ -1,4 +1,4 @@
-import SMV.Model.Engine
+import SMV.Props.C01
 /-!
 # Line-protocol driver
 
@@ -181,6 +181,7 @@ def runEngine (s : Scn) : List String := Id.run do
       out := out ++ [s!"R {i} skipped"]
     else
       let before := cfg.log.length
+      let before_tid := cfg.nextTid
       let (cfg', r) : Cfg × Except Exc Res := match op with
         | .construct => match construct m s.opts s.fuel cfg with
           | (c, .ok _) => (c, .ok .none)
@@ -196,7 +197,10 @@ def runEngine (s : Scn) : List String := Id.run do
       let rs := match r with
         | .ok v => "ok " ++ resS s v
         | .error e => "err " ++ excS e
-      out := out ++ [s!"R {i} {rs} cur={optS s.reprV cfg.cur}"]
+      let tidS := match op with
+        | .send _ => toString before_tid
+        | _ => "-"
+      out := out ++ [s!"R {i} {rs} cur={optS s.reprV cfg.cur} tid={tidS}"]
       match op, r with
       | .construct, .error _ => dead := true
       | .reconstruct, .error _ => dead := true
@@ -204,9 +208,43 @@ def runEngine (s : Scn) : List String := Id.run do
     i := i + 1
   return out
 
+/-- C01 Spec monitor on implementation observations: `mon i=<op> tid=<n> pre=<tok|-> ev=<e> out=<ok|err:exc> post=<tok|->` -/
+def runC01Mon (s : Scn) : List String :=
+  let m := s.machine
+  s.raw.toList.filterMap fun toks =>
+    match toks with
+    | "mon" :: rest =>
+      let kv := kvs rest
+      let tid := natOf (look kv "tid")
+      let ev := natOf (look kv "ev")
+      let pre := optNat (look kv "pre")
+      let post := optNat (look kv "post")
+      let outS := look kv "out"
+      let act : CbId → Act := fun cb => s.behav cb 0 { tid := tid, state := none, event := ev }
+      match pre.bind (lookupState m) with
+      | none => some s!"mon {look kv "i"} skip no-state"
+      | some st =>
+        if (out m st).any (fun tr => tr.conds.any fun p => (act p.1).raises.isSome) then
+          some s!"mon {look kv "i"} skip guard-raises"
+        else
+        let verdict : Bool × String := match choose s.truthy act ev (out m st) with
+          | .abort x => (outS == s!"err:user:{x}" && post == pre, s!"abort user:{x} state-unchanged")
+          | .notAllowed =>
+            if s.allow then (outS.startsWith "ok" && post == pre, "ignored state-unchanged")
+            else (outS == s!"err:notallowed:{ev}:{st}" && post == pre, s!"notallowed:{ev}:{st} state-unchanged")
+          | .fire tr =>
+            let tgt := some (stateVal m tr.target)
+            -- an action callback may raise (C04): then the state is source or target
+            ((outS.startsWith "ok" && post == tgt) ||
+             (outS.startsWith "err:user" && (post == tgt || post == pre)), s!"fire target={tr.target}")
+        some (if verdict.1 then s!"mon {look kv "i"} ok" else
+          s!"mon {look kv "i"} FAIL expected {verdict.2} observed out={outS} post={look kv "post"}")
+    | _ => none
+
 def runScn (s : Scn) : List String :=
   match s.kind with
   | "engine" => runEngine s
+  | "c01mon" => runC01Mon s
   | k => [s!"unknown-kind {k}"]
 
 partial def loop (h : IO.FS.Stream) (cur : Option Scn) : IO Unit := do
